@@ -9,7 +9,7 @@ for D in $VERIF/seeded/${1:-C}*-mut*; do
   ID=$(basename $D); P=${ID%%-*}
   git -C $WT checkout -q -- . ; git -C $WT clean -fdq
   if ! git -C $WT apply $D/patch.diff 2>/dev/null; then echo "$ID: patch does not apply (source moved on)"; continue; fi
-  OWNER=$(/venv/bin/python -c "import json;print(json.load(open('$D/meta.json')).get('property','$P').split(',')[0].strip()[:3])")
+  OWNER=$(/venv/bin/python -c "import json;m=json.load(open('$D/meta.json'));print(m.get('check_with') or m.get('property','$P').split(',')[0].strip()[:3])")
   R=$(cd $VERIF && TELINGO_REPO=$WT ./check $OWNER 2>&1 | grep -E "^VIOLATION|^OK|^HARNESS" | head -1 | cut -c1-70)
   echo "$ID [$OWNER]: $R"
   case "$R" in VIOLATION*) ;; *) MISS=1;; esac
